@@ -646,6 +646,13 @@ func (p *Prog) errorCall(e ast.Expr) (class string, code int64, ok bool) {
 		return "", 0, false
 	}
 	switch p.calleeOf(c) {
+	case "(*serverConn).rejectBlock":
+		// hands back the error it was given once the rest of the fragment has
+		// been decoded (rule reject-drains-the-block), or a connection error
+		if len(c.Args) == 4 {
+			return p.errorCall(c.Args[3])
+		}
+		return "", 0, false
 	case "NewGoAwayError":
 		class = "GoAway"
 	case "NewResetStreamError", "NewError":
